@@ -1,76 +1,90 @@
-(* The state of hy-repr (_quoting, _seen) is restored on every exit: the body of hy-repr, regenerated from
+(* The state of hy-repr (_quoting, _seen) and the text of a call.  The body of hy-repr, regenerated from
    hy_repr.hy as a sequence of steps (Gen/PrintTables.v: hy_repr_body), is run against every behaviour of the
-   registered printers -- returning, raising at any depth, calling hy-repr again on any objects, also on ones
-   that are being printed -- and leaves the state as it found it. *)
+   registered printers: returning a text, raising at any depth, reading the state, calling hy-repr again on any
+   objects -- also on ones that are being printed. *)
 From HyV Require Import Print.Syntax.
 From Coq Require Import Lia.
 
 Record rstate := { quoting : bool; seen : list nat }.
 
-(* what a registered printer does: return, raise, or call hy-repr on an object (whose printer behaves as
-   [inner]) and go on as [cont] if that call returns -- an exception from it propagates *)
-Inductive beh := Done (raises : bool) | Call (o : nat) (inner : beh) (cont : beh).
+(* what a registered printer does: finish (returning a text that may depend on the state it sees, or raising),
+   look at the state, or call hy-repr on an object -- whose printer behaves as [inner] -- and go on as [cont]
+   with the text of that call if it returns; an exception from it propagates *)
+Inductive beh :=
+| Done (raises : bool) (t : rstate -> text)
+| Look (k : rstate -> beh)
+| Call (o : nat) (inner : beh) (cont : text -> beh).
 
 Inductive exit := Normal | Returned | Raised.
 
 Section Run.
 Variable ismodel : nat -> bool.       (* the object is a model other than a keyword *)
+Variable ph : nat -> text.            (* the placeholder registered for the object's type *)
 Variable body : rbody.
 
 Definition remove_id (o : nat) (l : list nat) : list nat := filter (fun x => negb (Nat.eqb x o)) l.
 
-(* one step; [started] is the local started-quoting, [p] what calling the printer does to the state *)
-Definition do_step (p : rstate -> bool * rstate) (o : nat) (s : rstep) (started : bool) (st : rstate)
-  : exit * bool * rstate :=
+(* one step; [started] is the local started-quoting, [out] the value to be returned, [p] the printer *)
+Definition do_step (p : rstate -> option text * rstate) (o : nat) (s : rstep) (started : bool) (out : text) (st : rstate)
+  : exit * bool * text * rstate :=
   match s with
   | StartQuoting =>
       if negb (quoting st) && ismodel o
-      then (Normal, true, {| quoting := true; seen := seen st |})
-      else (Normal, started, st)
-  | ReturnIfSeen => if existsb (Nat.eqb o) (seen st) then (Returned, started, st) else (Normal, started, st)
-  | AddSeen => (Normal, started, {| quoting := quoting st; seen := o :: seen st |})
-  | CallPrinter => let '(r, st') := p st in (if r then Raised else Normal, started, st')
-  | DiscardSeen => (Normal, started, {| quoting := quoting st; seen := remove_id o (seen st) |})
-  | ResetQuoting => (Normal, started, if started then {| quoting := false; seen := seen st |} else st)
+      then (Normal, true, out, {| quoting := true; seen := seen st |})
+      else (Normal, started, out, st)
+  | ReturnIfSeen => if existsb (Nat.eqb o) (seen st) then (Returned, started, ph o, st) else (Normal, started, out, st)
+  | AddSeen => (Normal, started, out, {| quoting := quoting st; seen := o :: seen st |})
+  | CallPrinter =>
+      let '(r, st') := p st in
+      match r with
+      | Some t => (Normal, started, (if started then [c_sq] else []) ++ t, st')
+      | None => (Raised, started, out, st')
+      end
+  | DiscardSeen => (Normal, started, out, {| quoting := quoting st; seen := remove_id o (seen st) |})
+  | ResetQuoting => (Normal, started, out, if started then {| quoting := false; seen := seen st |} else st)
   end.
 
-Fixpoint do_steps (p : rstate -> bool * rstate) (o : nat) (l : list rstep) (started : bool) (st : rstate)
-  : exit * bool * rstate :=
+Fixpoint do_steps (p : rstate -> option text * rstate) (o : nat) (l : list rstep) (started : bool) (out : text) (st : rstate)
+  : exit * bool * text * rstate :=
   match l with
-  | [] => (Normal, started, st)
+  | [] => (Normal, started, out, st)
   | s :: r =>
-      match do_step p o s started st with
-      | (Normal, started', st') => do_steps p o r started' st'
+      match do_step p o s started out st with
+      | (Normal, started', out', st') => do_steps p o r started' out' st'
       | other => other
       end
   end.
 
-(* one call of hy-repr on object o: (did it raise, the state it leaves) *)
-Definition call_with (p : rstate -> bool * rstate) (o : nat) (st : rstate) : bool * rstate :=
+(* one call of hy-repr on object o: (the text, or None when it raised; the state it leaves) *)
+Definition call_with (p : rstate -> option text * rstate) (o : nat) (st : rstate) : option text * rstate :=
   match body with
   | Straight l =>
-      let '(e, _, st') := do_steps p o l false st in ((match e with Raised => true | _ => false end), st')
+      let '(e, _, out, st') := do_steps p o l false [] st in
+      ((match e with Raised => None | _ => Some out end), st')
   | TryFinally pre tr fin =>
-      match do_steps p o pre false st with
-      | (Normal, started, st1) =>
-          let '(e, started2, st2) := do_steps p o tr started st1 in
-          (* the finally clause runs whatever happened in the try body; an early return or an exception in it
-             would replace the pending exit (none of the steps it can hold returns or raises) *)
-          let '(e2, _, st3) := do_steps p o fin started2 st2 in
-          ((match e, e2 with Raised, Normal => true | _, Raised => true | _, _ => false end), st3)
-      | (e, _, st1) => ((match e with Raised => true | _ => false end), st1)
+      match do_steps p o pre false [] st with
+      | (Normal, started, out, st1) =>
+          let '(e, started2, out2, st2) := do_steps p o tr started out st1 in
+          (* the finally clause runs whatever happened in the try body (none of the steps it can hold returns or raises) *)
+          let '(e2, _, _, st3) := do_steps p o fin started2 out2 st2 in
+          ((match e, e2 with Raised, _ => None | _, Raised => None | _, _ => Some out2 end), st3)
+      | (e, _, out, st1) => ((match e with Raised => None | _ => Some out end), st1)
       end
   end.
 
-Fixpoint printer (b : beh) (st : rstate) : bool * rstate :=
+Fixpoint printer (b : beh) (st : rstate) : option text * rstate :=
   match b with
-  | Done r => (r, st)
+  | Done r t => (if r then None else Some (t st), st)
+  | Look k => printer (k st) st
   | Call o inner cont =>
       let '(r, st1) := call_with (printer inner) o st in
-      if r then (true, st1) else printer cont st1
+      match r with
+      | None => (None, st1)
+      | Some t => printer (cont t) st1
+      end
   end.
 
-Definition hy_repr_call (o : nat) (b : beh) (st : rstate) : bool * rstate := call_with (printer b) o st.
+Definition hy_repr_call (o : nat) (b : beh) (st : rstate) : option text * rstate := call_with (printer b) o st.
 
 End Run.
 
@@ -81,8 +95,11 @@ Definition protected_body : rbody :=
 Lemma hy_repr_body_is_protected : hy_repr_body = protected_body.
 Proof. reflexivity. Qed.
 
+Definition idle : rstate := {| quoting := false; seen := [] |}.
+
 Section Restore.
 Variable ismodel : nat -> bool.
+Variable ph : nat -> text.
 
 (* while a model (not a keyword) is being printed, _quoting is set *)
 Definition inv (st : rstate) : Prop := forall i, In i (seen st) -> ismodel i = true -> quoting st = true.
@@ -97,57 +114,130 @@ Qed.
 Lemma existsb_in o l : existsb (Nat.eqb o) l = true -> In o l.
 Proof. intros H. apply existsb_exists in H as [x [Hx E]]. apply Nat.eqb_eq in E. subst. exact Hx. Qed.
 
-(* if the printer leaves every state that meets the invariant as it found it, so does a call of hy-repr *)
-Lemma call_restores p o st :
-  (forall s, inv s -> snd (p s) = s) -> inv st -> snd (call_with ismodel protected_body p o st) = st.
+(* the state in which the printer of o runs: o is in _seen, _quoting is set if o is a model *)
+Definition enter (o : nat) (st : rstate) : rstate :=
+  {| quoting := quoting st || ismodel o; seen := o :: seen st |}.
+
+(* What a call of hy-repr does, exactly (for a printer that gives back the state it was given):
+   on an object that is being printed it returns the placeholder and touches nothing; otherwise the printer runs
+   in the state [enter o st] -- the enclosing objects stay in _seen -- its text gets the quote prefix exactly when
+   o is a model and no enclosing call had set _quoting, and the state on exit is the state on entry. *)
+Lemma call_spec p o st :
+  (forall s, inv s -> snd (p s) = s) -> inv st ->
+  call_with ismodel ph protected_body p o st
+  = if existsb (Nat.eqb o) (seen st) then (Some (ph o), st)
+    else (match fst (p (enter o st)) with
+          | Some t => Some ((if negb (quoting st) && ismodel o then [c_sq] else []) ++ t)
+          | None => None
+          end, st).
 Proof.
-  intros Hp Hinv. destruct st as [q sn]. unfold call_with, protected_body.
+  intros Hp Hinv. destruct st as [q sn]. unfold call_with, protected_body, enter.
   cbn [do_steps]. unfold do_step at 1. cbn [quoting seen].
   destruct (negb q && ismodel o) eqn:Es.
-  - (* this call sets _quoting *)
-    apply andb_prop in Es as [Hq Hm]. apply negb_true_iff in Hq. subst q.
+  - apply andb_prop in Es as [Hq Hm]. apply negb_true_iff in Hq. subst q.
     unfold do_step at 1. cbn [quoting seen]. destruct (existsb (Nat.eqb o) sn) eqn:Eseen.
-    + (* o is being printed and is a model: then _quoting was set already *)
-      exfalso. specialize (Hinv o (existsb_in _ _ Eseen) Hm). cbn in Hinv. discriminate.
-    + unfold do_step at 1. cbn [quoting seen].
+    + exfalso. specialize (Hinv o (existsb_in _ _ Eseen) Hm). cbn in Hinv. discriminate.
+    + unfold do_step at 1. cbn [quoting seen orb]. rewrite Hm.
       assert (Hi : inv {| quoting := true; seen := o :: sn |}) by (intros i _ _; reflexivity).
       pose proof (Hp _ Hi) as E. unfold do_step at 1.
-      destruct (p {| quoting := true; seen := o :: sn |}) as [r st']. cbn [snd] in E. subst st'.
-      destruct r; cbn [do_steps do_step quoting seen snd]; rewrite remove_id_fresh by exact Eseen; reflexivity.
+      destruct (p {| quoting := true; seen := o :: sn |}) as [r st']. cbn [snd fst] in E |- *. subst st'.
+      destruct r; cbn [do_steps do_step quoting seen]; rewrite remove_id_fresh by exact Eseen; reflexivity.
   - unfold do_step at 1. cbn [quoting seen]. destruct (existsb (Nat.eqb o) sn) eqn:Eseen; [reflexivity|].
     unfold do_step at 1. cbn [quoting seen].
+    assert (Eq : q || ismodel o = q).
+    { destruct q; [reflexivity|]. cbn in Es |- *. exact Es. }
+    rewrite Eq.
     assert (Hi : inv {| quoting := q; seen := o :: sn |}).
     { intros i [<-|Hin] Hm; cbn [quoting].
       - rewrite Hm, andb_true_r in Es. apply negb_false_iff in Es. exact Es.
       - apply (Hinv i Hin Hm). }
     pose proof (Hp _ Hi) as E. unfold do_step at 1.
-    destruct (p {| quoting := q; seen := o :: sn |}) as [r st']. cbn [snd] in E. subst st'.
-    destruct r; cbn [do_steps do_step quoting seen snd]; rewrite remove_id_fresh by exact Eseen; reflexivity.
+    destruct (p {| quoting := q; seen := o :: sn |}) as [r st']. cbn [snd fst] in E |- *. subst st'.
+    destruct r; cbn [do_steps do_step quoting seen app]; rewrite remove_id_fresh by exact Eseen; reflexivity.
 Qed.
 
-Lemma printer_restores b : forall st, inv st -> snd (printer ismodel protected_body b st) = st.
+Lemma call_restores p o st :
+  (forall s, inv s -> snd (p s) = s) -> inv st -> snd (call_with ismodel ph protected_body p o st) = st.
 Proof.
-  induction b as [r|o inner IHi cont IHc]; intros st Hinv; [reflexivity|].
-  cbn [printer]. pose proof (call_restores (printer ismodel protected_body inner) o st IHi Hinv) as E.
-  destruct (call_with ismodel protected_body (printer ismodel protected_body inner) o st) as [r st1]. cbn [snd] in E. subst st1.
-  destruct r; [reflexivity|]. apply IHc. exact Hinv.
+  intros Hp Hinv. rewrite call_spec by assumption. destruct (existsb (Nat.eqb o) (seen st)); reflexivity.
 Qed.
 
-(* every call of hy-repr, whatever the printers do (return or raise at any depth, re-enter on any object),
-   leaves _quoting and _seen as it found them; in particular a call from the idle state ends in the idle state *)
+Lemma printer_restores b : forall st, inv st -> snd (printer ismodel ph protected_body b st) = st.
+Proof.
+  induction b as [r t|k IHk|o inner IHi cont IHc]; intros st Hinv; [destruct r; reflexivity| |].
+  - cbn [printer]. apply IHk. exact Hinv.
+  - cbn [printer]. pose proof (call_restores (printer ismodel ph protected_body inner) o st IHi Hinv) as E.
+    destruct (call_with ismodel ph protected_body (printer ismodel ph protected_body inner) o st) as [r st1].
+    cbn [snd] in E. subst st1. destruct r; [|reflexivity]. apply IHc. exact Hinv.
+Qed.
+
+(* (1) every call of hy-repr, whatever the printers do, leaves _quoting and _seen as it found them *)
 Theorem repr_state_restored o b st : inv st ->
-  snd (hy_repr_call ismodel hy_repr_body o b st) = st.
+  snd (hy_repr_call ismodel ph hy_repr_body o b st) = st.
 Proof. rewrite hy_repr_body_is_protected. intros H. apply call_restores; [apply printer_restores|exact H]. Qed.
 
-Corollary repr_idle_after_any_call o b :
-  snd (hy_repr_call ismodel hy_repr_body o b {| quoting := false; seen := [] |}) = {| quoting := false; seen := [] |}.
-Proof. apply repr_state_restored. intros i []. Qed.
+Lemma inv_idle : inv idle.
+Proof. intros i []. Qed.
 
-(* without the protection the state leaks: the same steps in a straight line, a printer that raises *)
+Corollary repr_idle_after_any_call o b : snd (hy_repr_call ismodel ph hy_repr_body o b idle) = idle.
+Proof. apply repr_state_restored, inv_idle. Qed.
+
+(* (3) what a call made from inside a printer sees *)
+Theorem nested_call_sees o b st : inv st ->
+  hy_repr_call ismodel ph hy_repr_body o b st
+  = if existsb (Nat.eqb o) (seen st) then (Some (ph o), st)
+    else (match fst (printer ismodel ph protected_body b (enter o st)) with
+          | Some t => Some ((if negb (quoting st) && ismodel o then [c_sq] else []) ++ t)
+          | None => None
+          end, st).
+Proof.
+  intros H. unfold hy_repr_call. rewrite hy_repr_body_is_protected. apply call_spec; [apply printer_restores|exact H].
+Qed.
+
+(* the state a printer runs in meets the invariant again, so the statement applies at every depth *)
+Lemma inv_enter o st : inv st -> inv (enter o st).
+Proof.
+  intros H i [<-|Hin] Hm; cbn [enter quoting]; [rewrite Hm; apply orb_true_r|].
+  rewrite (H i Hin Hm). reflexivity.
+Qed.
+
+(* ---------------------------------------------------------------- (2) histories of top-level calls *)
+(* the results of a history of calls made one after the other, starting in state st *)
+Fixpoint run_history (h : list (nat * beh)) (st : rstate) : list (option text) :=
+  match h with
+  | [] => []
+  | (o, b) :: r =>
+      let '(t, st') := hy_repr_call ismodel ph hy_repr_body o b st in
+      t :: run_history r st'
+  end.
+
+(* each call of the history, made alone in a fresh (idle) state *)
+Definition fresh_results (h : list (nat * beh)) : list (option text) :=
+  map (fun ob => fst (hy_repr_call ismodel ph hy_repr_body (fst ob) (snd ob) idle)) h.
+
+Theorem history_independence h : run_history h idle = fresh_results h.
+Proof.
+  unfold fresh_results. induction h as [|[o b] h IH]; [reflexivity|].
+  cbn [run_history map fst snd]. pose proof (repr_idle_after_any_call o b) as E.
+  destruct (hy_repr_call ismodel ph hy_repr_body o b idle) as [t st']. cbn [snd fst] in E |- *. subst st'.
+  rewrite IH. reflexivity.
+Qed.
+
+End Restore.
+
+(* without the protection the state leaks: the same steps in a straight line, a printer that raises; the next
+   print of the same (acyclic) object then shows the placeholder *)
+Definition straight_body : rbody := Straight [StartQuoting; ReturnIfSeen; AddSeen; CallPrinter; DiscardSeen; ResetQuoting].
+
 Example straight_line_leaks :
-  snd (hy_repr_call (fun _ => true) (Straight [StartQuoting; ReturnIfSeen; AddSeen; CallPrinter; DiscardSeen; ResetQuoting])
-                    7%nat (Done true) {| quoting := false; seen := [] |})
+  snd (hy_repr_call (fun _ => true) (fun _ => [46; 46; 46]) straight_body 7%nat (Done true (fun _ => [])) idle)
   = {| quoting := true; seen := [7%nat] |}.
 Proof. reflexivity. Qed.
 
-End Restore.
+(* the early return of hy-repr comes after the step that may set _quoting: in a state that breaks the invariant
+   (a model in _seen while _quoting is clear -- no sequence of calls produces it, by inv_enter) the flag would leak *)
+Example early_return_needs_the_invariant :
+  snd (hy_repr_call (fun _ => true) (fun _ => [46; 46; 46]) protected_body 7%nat (Done false (fun _ => []))
+                    {| quoting := false; seen := [7%nat] |})
+  = {| quoting := true; seen := [7%nat] |}.
+Proof. reflexivity. Qed.
